@@ -14,7 +14,9 @@ PROP = dict(
          "(GetPositionHealth; GetMTPHealth after settling interest and funding), guard evaluated by the harness, state advanced by that one item; after the real step all "
          "positions and owner balances are diffed. distinct = distinct (op,result) sequence; non-trivial = at least one forced close, successful open or user close",
     trusted_base=["health values, lp / oracle prices, settled interest and funding amounts and pay-outs are read from the implementation (recomputed on throw-away contexts "
-                  "with the keepers' own GetPositionHealth / GetMTPHealth / LpTokenPrice / settlement functions): the link health value <-> economic value is taken as given",
+                  "with the keepers' own GetPositionHealth / GetMTPHealth / LpTokenPrice / settlement functions): the link health value <-> economic value is taken as given, "
+                  "except for leveraged-LP health, which is ALSO recomputed from first principles (amm ExitPoolEst of the shares committed at the position address in uusdc over "
+                  "Borrowed + InterestStacked - InterestPaid of the stablestake debt record); the two must agree (C10:lev-health-differs-from-exit-value-over-debt) and the verdict uses the recomputed value",
                   "owner funds = bank balances of uusdc, uatom, uelys, ueden, uedenb (claimed-but-uncommitted reward records are not diffed)",
                   "balances over a whole block are not attributed to the sweep (queued swaps settle in the same block); transfers out of a position's own address are"],
     modelled="decision layer only (guards, loops, keys); pricing, interest, funding and swap estimation are implementation-resolved; tradeshield order execution (owner-created "
